@@ -1,7 +1,7 @@
 import TTV.Model.Reactor
 import TTV.Generated.C15
 /-! Model of `Spinner.run` histories (C15): one reactor, one `Spinner` object, a list of steps
-`run scenario | clear_junk()`.
+`run scenario | clear_junk() | the process installs a signal handler`.
 
 A scenario is what the harness does around one `spinner.run(timeout, f)`:
 * `pre`: delayed calls scheduled *before* `run` is called (so they precede the spinner's timeout call in
@@ -33,12 +33,16 @@ deriving DecidableEq, Repr
 
 structure Scen where
   timeout : Nat
+  bad : Bool := false           -- the timeout is one the reactor rejects (negative): `reactor.callLater` raises; `timeout` is unused
   pre : List (Nat × Act)
   body : List Op
   term : Term
 deriving Repr
 
-inductive Step | run (sc : Scen) | clearJunk
+inductive Step
+  | run (sc : Scen)
+  | clearJunk
+  | setSig (s h : Nat)          -- between two calls the process does `signal.signal(SIGNALS[s], handler h)`
 deriving Repr
 
 structure Input where
@@ -110,7 +114,7 @@ structure RunObs where
   elapsed : Nat                 -- virtual time consumed
 deriving Repr
 
-inductive Obs | run (o : RunObs) | cleared (junk : List Junk)
+inductive Obs | run (o : RunObs) | cleared (junk : List Junk) | sigs (now : List Nat)
 deriving Repr
 
 abbrev Trace := List Obs
@@ -126,9 +130,14 @@ def finishF (t : Term) (w : W) : W :=
     | some r => deliver r w          -- already fired: the callbacks run at once
     | none => w
 
-/-- `Spinner.run` from `_save_signals` to the end of `reactor.run()` -/
+/-- the beginning of `Spinner.run` once the junk check has passed: the result of the previous run is forgotten,
+`_save_signals()` *assigns* the handlers found now to `_saved_signals` (whatever was there is dropped) -/
+def saveSignals (w : W) : W :=
+  { w with sp := { w.sp with success := none, failure := none, saved := w.sigs } }
+
+/-- `Spinner.run` from there to the end of `reactor.run()` -/
 def spinPhase (sc : Scen) (w : W) : W :=
-  let w := { w with sp := { w.sp with success := none, failure := none } }
+  let w := saveSignals w
   let w := schedule (w.now + sc.timeout) .timeout w
   let w := { w with stopPatched := true, running := true, crashed := false,
                     sp := { w.sp with tcall := .pending, spinning := true } }
@@ -143,11 +152,21 @@ def runStep (sc : Scen) (w0 : W) : W × RunObs :=
      { result := .stalejunk, events := w.events, reentries := w.u.reentries, junk := w.sp.junk,
        pending := w.calls.length, sels := w.sels.length, running := w.running, stopRestored := !w.stopPatched,
        sigBefore := w0.sigs, sigAfter := w.sigs, elapsed := w.now - w0.now })
+  else if sc.bad then
+    -- `reactor.callLater(timeout, …)` raises: `run` raises out of the statements before its `try … finally`.  By then the
+    -- previous result has been forgotten and `_save_signals()` has run: the handlers it found stay in `_saved_signals`
+    -- (no handler was changed, `reactor.stop` is not yet patched, `f` is never called).  Afterwards the harness cancels
+    -- what it had scheduled.
+    let w := saveSignals w
+    ({ w with calls := [] },
+     { result := .rejected, events := w.events, reentries := w.u.reentries, junk := w.sp.junk,
+       pending := w.calls.length, sels := w.sels.length, running := w.running, stopRestored := !w.stopPatched,
+       sigBefore := w0.sigs, sigAfter := w.sigs, elapsed := w.now - w0.now })
   else
-    let saved := w.sigs
     let w := spinPhase sc w
-    -- finally: reactor.stop = real_stop; _restore_signals()
-    let w := { w with running := false, stopPatched := false, sigs := restoreFrom 0 saved w.sigs }
+    -- finally: reactor.stop = real_stop; _restore_signals(): the handlers in `_saved_signals` are installed, the list is emptied
+    let w := { w with running := false, stopPatched := false, sigs := restoreFrom 0 w.sp.saved w.sigs,
+                      sp := { w.sp with saved := [] } }
     let result := getResult w.sp
     -- finally: _clean()
     let w := { w with calls := [], sels := [], sp := { w.sp with junk := w.sp.junk ++ leftovers w } }
@@ -159,6 +178,7 @@ def step (s : Step) (w : W) : W × Obs :=
   match s with
   | .run sc => let (w, o) := runStep sc w; (w, .run o)
   | .clearJunk => ({ w with sp := { w.sp with junk := [] } }, .cleared w.sp.junk)
+  | .setSig s h => let w := { w with sigs := w.sigs.set s h }; (w, .sigs w.sigs)
 
 def runSteps : List Step → W → List Obs
   | [], _ => []
